@@ -32,7 +32,7 @@ import (
 	"verifharness/h"
 )
 
-const c15Timeout = 20 * time.Second
+const c15Timeout = 90 * time.Second
 // pipeBuf is what F_SETPIPE_SZ shrinks the closing-reader pipe to (probed at start-up)
 var pipeBuf = 65536
 
@@ -235,6 +235,7 @@ type procObs struct {
 	stdout   []byte
 	stderr   string
 	timedOut bool
+	shown    []byte // everything the controlling terminal displayed (pty runs only)
 }
 
 func (e *c15Env) run(s *procSpec) *procObs {
